@@ -383,6 +383,8 @@ async def tee_peer(
                         # item already.
                         for peer_buffer in peers:
                             peer_buffer.append(item)
+                        # only the buffers keep the item alive
+                        del item
             yield buffer.popleft()
     finally:
         # this peer is done – remove its buffer
